@@ -198,6 +198,9 @@ func c16Parse(c *fw.Ctx, in []byte, kind string) {
 }
 
 func c16Run(c *fw.Ctx) {
+	{
+		interfRun(c, "C16") // statement-level interleavings of operations on disjoint objects (subprocess)
+	}
 	// (a) every tag × every length
 	var tags []int
 	for t := 0; t < 256; t++ {
